@@ -310,6 +310,16 @@ func monC17(x *Ctx) {
 				setCustomState(obj, x.Root, types.String{Null: true})
 				x.Count("to-calls-with-null-current-value", 1)
 			}
+			// the target's own flags say nothing about its attributes: a hand-built target flagged unknown / null that
+			// still carries them has current values like any other
+			switch i % 32 {
+			case 9:
+				obj.Unknown = true
+				x.Count("to-calls-on-flagged-target", 1)
+			case 25:
+				obj.Null = true
+				x.Count("to-calls-on-flagged-target", 1)
+			}
 			prior = deepCopyTF(obj).(types.Object)
 		}
 		x.Eval(1)
